@@ -427,6 +427,15 @@ func checkValue(c Case) error {
 		if bytes.Equal(menc, enc) {
 			return stats.Failf(key("fields"), "%s: field %s does not influence the encoding (minimal mutation left %d bytes unchanged)\n enc %s", e.Name, p, len(enc), hx(enc))
 		}
+		// (3b) a decoded value is independent of what is decoded into the same variable afterwards: the value is
+		// decoded into a variable, a copy of the variable is kept (sharing its lists, as an element of a longer-lived
+		// structure would), the minimally different encoding is decoded into the same variable, and the kept copy
+		// must still be the first value. (No decoder of the library writes into memory of the receiver's old value.)
+		if mutated <= 2 {
+			if herr := gen.ReuseReceiver(e, enc, menc); herr != nil {
+				return stats.Failf(key("receiver-reuse"), "%s: %v (second encoding differs at %s)", e.Name, herr, p)
+			}
+		}
 	}
 	rec.Extra("field-mutations", uint64(mutated))
 
